@@ -34,6 +34,13 @@ STRENGTH = {
  "C17-d": "nested ranging over one stored Preorder value",
  "C19-d": "a second set of poslang expression objects shared by all node types with the same expression text",
  "C20-d": "texts of up to 400 (thorough 3 000) lines with every position resolved",
+ "C03-f": "every reserved / pseudo keyword after an erroneous prefix and in front of each kind of lexically malformed token, through every entry point",
+ "C07-f": "long chains (257 / 4 099 / 12 000, thorough 70 001 operands) of every left-associative operator, of alternating operator pairs, of prefix operators and subscripts; the spine is checked node by node",
+ "C11-f": "long homogeneous statement lists (4 096 / 20 000 copies of 56 statement shapes, 2 500 copies of every sentence of the systematic set) through one parser instance",
+ "C12-f": "the reference lexer now skips the Unicode whitespace characters GoogleSQL lists (they were Unspecified); every such character and its neighbours around a top-level `;` in C12, every code point between two tokens in C13/C14",
+ "C14-f": "every identifier-shaped word of up to 5 characters over [a-z0-9_] (thorough: every 6-letter word) must be its keyword or an identifier (52 million words, lean loop)",
+ "C17-f": "wide lists with one deep element (129 - 1 200 elements x 130 - 1 100-deep chain / parentheses / array nest at 4 positions) in the tree workload of C04/C05/C06/C09/C10/C17/C19",
+ "C20-f": "hostile file paths (`%`, `:`, newline, quotes, empty, long) x error inputs x every entry point, and Position.String()",
  "C01-e": "G writes `expression.*` over arbitrary expressions (which exposed and led to the repair of the residual `a + 1 .*` defect)",
  "C02-e": "duplicated token runs (lengths 1-8) as near misses",
  "C04-e": "future-syntax phrase insertion (`IS NOT DISTINCT FROM b`, `QUALIFY`, `OVER ()`, pipe operators ...) into short corpus sentences",
@@ -46,8 +53,8 @@ STRENGTH = {
 out = []
 out.append("## 11. Seeded changes and kill matrix\n")
 out.append("Every change below was written by a fresh sub-agent that saw only the text of one property and a scratch git\n"
-           "worktree of /repo (nothing from /verif), in five rounds: (a) free choice, (b) a prescribed area of the code per\n"
-           "property, (c)-(e) \"make it survive generic property-based testing\" with an increasingly detailed description of what such testing does. Each was verified with\n"
+           "worktree of /repo (nothing from /verif), in six rounds: (a) free choice, (b) a prescribed area of the code per\n"
+           "property, (c)-(f) \"make it survive generic property-based testing\" with an increasingly detailed description of what such testing does. Each was verified with\n"
            "`tools/mutant_verify.sh` (compiles, unedited suite passes, demonstration fails with the change and passes without)\n"
            "and is kept as `seeded/<name>/{patch.diff, mutant_demo_test.go, MUTANT.md, meta.json}`. \"caught by\" lists the\n"
            "checks whose **quick** command exits 1 on a scratch copy of /repo with the patch applied (`tools/killmatrix.sh`).\n"
